@@ -234,13 +234,25 @@ def canonical (f : FArg) : Bool :=
     results of the ops without an explicit overflow rule -/
 def moderate (f : FArg) : Bool := f.isInf ∨ (- 2 ^ 61 ≤ f.exp ∧ f.exp ≤ 2 ^ 61)
 
+/-- `⌈log2 b⌉` -/
+def log2Ceil (b : Nat) : Nat := if 2 ^ Nat.log2 b = b then Nat.log2 b else Nat.log2 b + 1
+
 /-- `2^k ≤ |x|` for a finite non-zero `x = signif · base^exp` (sufficient test, base ≥ 2, exp ≥ 0 side only) -/
 def magAtLeastPow2 (f : FArg) (k : Nat) : Bool :=
   f.signif ≠ 0 ∧ f.exp ≥ 0 ∧ (bitLen f.signif.natAbs - 1) + f.exp.toNat * (Nat.log2 f.base) ≥ k
 
 /-- `|x| ≤ 2^k` (sufficient test) -/
 def magAtMostPow2 (f : FArg) (k : Nat) : Bool :=
-  f.signif = 0 ∨ f.exp ≤ 0 ∨ bitLen f.signif.natAbs + f.exp.toNat * (Nat.log2 f.base + 1) ≤ k
+  f.signif = 0 ∨ (f.exp ≤ 0 ∧ bitLen f.signif.natAbs ≤ k) ∨ bitLen f.signif.natAbs + f.exp.toNat * log2Ceil f.base ≤ k
+
+/-- number of trailing zero digits of `n ≠ 0` in base `b ≥ 2` -/
+def trailingZerosAux (b : Nat) : Nat → Nat → Nat → Nat
+  | 0, _, acc => acc
+  | fuel + 1, n, acc => if n % b = 0 ∧ n ≠ 0 then trailingZerosAux b fuel (n / b) (acc + 1) else acc
+def trailingZeros (b n : Nat) : Nat := trailingZerosAux b (Nat.log2 n + 1) n 0
+
+/-- digits of the significand after `Repr::new` normalized it (trailing zero digits moved into the exponent) -/
+def normDigits (f : FArg) : Nat := f.digits - trailingZeros f.base f.signif.natAbs
 end FArg
 
 /-- same base and mode (binary operators are restricted to the same base and rounding mode) -/
@@ -249,23 +261,21 @@ def sameKind (a b : FArg) : Bool := a.base = b.base ∧ a.mode = b.mode
 /-- precision of the result of a binary operator: `Context::max` -/
 def maxPrec (a b : FArg) : Nat := max a.prec b.prec
 
-/-- is `5^k ∣ m`? (`to_binary` of a decimal with negative exponent is exact iff so) -/
-def pow5Divides (k : Nat) (m : Nat) : Bool := m % (5 ^ k) = 0
-
 -- ------------------------------------------------------------------------------------------------
 -- the documentation, operation by operation
 
 /-- result size of `x.pow(e)` for `|x| ≥ 2`, `e ≥ 2`: between `(L-1)·e + 1` and `L·e` bits -/
 def powVerdict (W : Nat) (mag e : Nat) : Verdict :=
   if mag ≤ 1 ∨ e ≤ 1 then .returns
+  else if 2 ^ Nat.log2 mag = mag then alloc W (Nat.log2 mag * e + 1)      -- a power of two: exact
   else allocRange W ((bitLen mag - 1) * e + 1) (bitLen mag * e)
 
 def divZero (b : Int) : Verdict := firstOf [(b = 0, .divideByZero)]
 
-/-- highest bit position reached by `from_chunks`: max over non-zero chunks of `k·i + bitLen c_i` -/
+/-- size of the concatenation built by `from_chunks`: chunk `i` occupies bits from `k·i` on -/
 def chunksBits (k : Nat) : Nat → List Int → Nat
   | _, [] => 0
-  | i, c :: cs => max (if c = 0 then 0 else k * i + bitLen c.natAbs) (chunksBits k (i + 1) cs)
+  | i, c :: cs => max (k * i + bitLen c.natAbs) (chunksBits k (i + 1) cs)
 
 def allInts : List Arg → Option (List Int)
   | [] => some []
@@ -383,6 +393,7 @@ def verdict (W : Nat) : Op → List Arg → Option Verdict
       else if ¬ (a.moderate ∧ b.moderate) then some .unspecified
       else if a.isInf ∨ b.isInf then some (.panics .infinite)
       else if maxPrec a b = 0 then some (.panics .unlimitedPrecision)
+      else if b.isZero then some .returns                    -- x^0 = 1 for every finite x
       else if a.isNeg then some (.panics .powNegativeBase)
       -- |x^y| can leave the exponent range only if |y·log2 x| ≥ 2^62; both factors are kept below 2^30
       else if a.magAtMostPow2 (2 ^ 30) ∧ b.magAtMostPow2 30 ∧ a.exp ≥ -(2 ^ 30) then some .returns
@@ -443,29 +454,38 @@ def verdict (W : Nat) : Op → List Arg → Option Verdict
       if ¬ a.canonical then none else if ¬ a.moderate then some .unspecified
       else some (firstOf [(a.prec = 0, .unlimitedPrecision)])
   -- conversions to f32/f64: "The infinities are converted as it is"; lossy conversions report the rounding
-  | .fToF32, [.flt a] | .fToF64, [.flt a] | .fNegAbs, [.flt a] | .fInfo, [.flt a] | .fToIntTry, [.flt a]
+  | .fToF32, [.flt a] | .fToF64, [.flt a] | .fNegAbs, [.flt a] | .fToIntTry, [.flt a]
   | .fToRatio, [.flt a] =>
       if ¬ a.canonical then none else if ¬ a.moderate then some .unspecified
+      else if a.exp.natAbs ≤ 2 ^ 20 then some .returns else some .unspecified
+  -- (D3) "Any other operations on the infinity will lead to panic": the documentation does not say whether the
+  --      inspectors (`digits`, `precision`, `into_parts`) and `with_precision` count as operations; transcribed as
+  --      "they do" (the panic helper's message speaks of arithmetic operations; both readings are defensible)
+  | .fInfo, [.flt a] =>
+      if ¬ a.canonical then none else if ¬ a.moderate then some .unspecified
+      else if a.isInf then some (.panics .infinite)
       else if a.exp.natAbs ≤ 2 ^ 20 then some .returns else some .unspecified
   | .fFmt, [.flt a] =>
       if ¬ a.canonical then none
       else if a.isInf ∨ a.exp.natAbs ≤ 2 ^ 16 then some .returns else some .unspecified
-  -- (D1) to_decimal / to_binary: "Panics if the associated context has unlimited precision and the
-  --      conversion cannot be performed losslessly."  binary → decimal is always lossless.
+  -- (D1) to_decimal / to_binary / with_base: "Panics if the associated context has unlimited precision and the
+  --      conversion cannot be performed losslessly."; with_base_and_precision makes it precise: "Conversion for
+  --      float numbers with unlimited precision is only allowed in following cases: the number is infinite, the
+  --      new base NewB is a power of B, B is a power of the new base NewB" (2 and 10 are neither)
   | .fToDecimal, [.flt a] =>
       if ¬ a.canonical then none
       else if a.isInf then some .returns
-      else if a.exp.natAbs ≤ 2 ^ 20 then some .returns else some .unspecified
+      else if a.exp.natAbs > 2 ^ 20 then some .unspecified
+      else some (firstOf [(a.base ≠ 10 ∧ a.prec = 0, .unlimitedPrecision)])
   | .fToBinary, [.flt a] =>
       if ¬ a.canonical then none
       else if a.isInf then some .returns
       else if a.exp.natAbs > 2 ^ 20 then some .unspecified
-      else if a.base = 10 ∧ a.prec = 0 ∧ a.exp < 0 ∧ ¬ pow5Divides (-a.exp).toNat a.signif.natAbs
-        then some (.panics .unlimitedPrecision)
-      else some .returns
+      else some (firstOf [(a.base ≠ 2 ∧ a.prec = 0, .unlimitedPrecision)])
   -- (D1) powi: "Panics if the precision is unlimited and the exponent is negative."; 0^(-n) divides by zero
   | .fPowi, [.flt a, .int e] =>
-      if ¬ a.canonical then none else if ¬ a.moderate then some .unspecified
+      if ¬ a.canonical then none
+      else if ¬ a.moderate ∧ a.signif.natAbs ≠ 1 then some .unspecified
       else if a.isInf then some (.panics .infinite)
       else if e < 0 ∧ a.prec = 0 then some (.panics .unlimitedPrecision)
       else if e < 0 ∧ a.isZero then some (.panics .divideByZero)
@@ -483,19 +503,18 @@ def verdict (W : Nat) : Op → List Arg → Option Verdict
       else some (expExact (a.exp - n))
   | .fWithPrecision, [.flt a, .dec p] =>
       if ¬ a.canonical ∨ p < 0 ∨ p > usizeMax then none else if ¬ a.moderate then some .unspecified
-      else some .returns
+      else some .returns        -- a conversion: infinities are carried over (as in to_f32/to_f64/with_base)
   -- from_parts normalizes: the exponent grows by the number of trailing zero digits (at most the digit count)
   | .fFromParts, [.int s, .dec e, .flt z] =>
       if ¬ z.canonical ∨ e < isizeMin ∨ e > isizeMax then none
       else if s = 0 then some .returns
-      else if e + (bitLen s.natAbs : Int) ≤ isizeMax then some .returns
-      else some .unspecified
+      else some (expExact (e + (FArg.trailingZeros z.base s.natAbs : Int)))
   -- (D1) from_repr: "Panics if the Repr has more digits than the precision limit specified in the context.
   --      Note that this condition is not checked in release builds."   first arg: 1 = debug build
   | .fFromRepr, [.dec dbg, .flt a] =>
       if ¬ (dbg = 0 ∨ dbg = 1) ∨ ¬ ((a.base = 2 ∧ a.mode = 'Z') ∨ (a.base = 10 ∧ a.mode = 'H')) then none
       else if ¬ a.moderate then some .unspecified
-      else some (firstOf [(dbg = 1 ∧ ¬ a.isInf ∧ a.prec ≠ 0 ∧ a.digits > a.prec, .precisionExceeded)])
+      else some (firstOf [(dbg = 1 ∧ ¬ a.isInf ∧ a.prec ≠ 0 ∧ a.normDigits > a.prec, .precisionExceeded)])
   -- parser: "Parsers return Err, never panic"
   | .fParse, [.str _, .flt z] => if ¬ z.canonical then none else some .returns
   | .fFromInt, [.int _, .dec p, .flt z] => if ¬ z.canonical ∨ p < 0 then none else some .returns
